@@ -78,6 +78,8 @@ type Lab struct {
 	stops   []func()
 	serveWG sync.WaitGroup
 
+	basePrices proto4.HostPrices
+
 	// the lab's own view of every v2 contract element on the best chain
 	elemMu  sync.Mutex
 	elemTip types.ChainIndex
@@ -282,6 +284,7 @@ func New(o Options) (*Lab, error) {
 		TotalStorage:        1000,
 		Prices:              o.Prices,
 	})
+	l.basePrices = o.Prices
 	l.Mux = NewMux(l.HostKey.PublicKey())
 	l.Log = &Log{mux: l.Mux}
 
@@ -483,6 +486,41 @@ func (l *Lab) Reorg(depth int) error {
 		return fmt.Errorf("fork of %d blocks did not become the best chain (tip %v)", len(blocks), got)
 	}
 	return l.Sync()
+}
+
+// SetPriceFactor changes the host's current settings: every per-unit price of
+// the lab's base price table is scaled ("x0.5", "x2", "x1000"), zeroed
+// ("zero") or restored ("x1"). Price tables the host signed earlier stay valid
+// until they expire; only tables fetched afterwards carry the new prices.
+func (l *Lab) SetPriceFactor(f string) error {
+	hs := l.Settings.RHP4Settings()
+	b := l.basePrices
+	scale := func(c types.Currency) types.Currency {
+		switch f {
+		case "x1":
+			return c
+		case "x0.5":
+			return c.Div64(2)
+		case "x2":
+			return c.Mul64(2)
+		case "x1000":
+			return c.Mul64(1000)
+		case "zero":
+			return types.ZeroCurrency
+		}
+		return c
+	}
+	switch f {
+	case "x1", "x0.5", "x2", "x1000", "zero":
+	default:
+		return fmt.Errorf("unknown price factor %q", f)
+	}
+	hs.Prices.StoragePrice = scale(b.StoragePrice)
+	hs.Prices.IngressPrice = scale(b.IngressPrice)
+	hs.Prices.EgressPrice = scale(b.EgressPrice)
+	hs.Prices.FreeSectorPrice = scale(b.FreeSectorPrice)
+	l.Settings.Update(hs)
+	return nil
 }
 
 // Quiesce waits for the handler-quiescence barrier.
